@@ -1,29 +1,32 @@
 #!/bin/bash
-# usage: run_seeds.sh [seed-name-glob] [props...]   (default: all seeds, each against every claimed check)
-# Applies each seeded patch to /repo, runs the quick checks, reverts. Prints a matrix line per seed.
+# usage: run_seeds.sh [seed-name-glob] [props...]
+# For each seeded patch: scratch worktree of /repo HEAD, apply the patch, run the
+# quick checks against it (-repo), record which fire; worktree removed again.
+# /repo itself is not touched. Runs 8 seeds in parallel.
 cd /verif
 glob=${1:-*}; shift
 props="$@"
 if [ -z "$props" ]; then props=$(python3 -c "import json;print(' '.join(c['property_id'] for c in json.load(open('MANIFEST.json'))['checks']))"); fi
-if [ -n "$(git -C /repo status --porcelain)" ]; then echo "/repo not clean"; exit 2; fi
-trap 'git -C /repo checkout -q -- . ; git -C /repo clean -fdq' EXIT
-for s in seeded/$glob; do
-  [ -f $s/patch.diff ] || continue
-  name=$(basename $s)
-  if ! git -C /repo apply $PWD/$s/patch.diff 2>/dev/null; then echo "SEED $name: patch does not apply"; continue; fi
+export props
+one() {
+  s=$1; name=$(basename $s)
+  wt=/tmp/seedwt-$name; vd=/tmp/seedvd-$name
+  git -C /repo worktree remove --force $wt >/dev/null 2>&1; rm -rf $wt $vd
+  git -C /repo worktree add --detach $wt HEAD >/dev/null 2>&1 || { echo "SEED $name: worktree failed"; return; }
+  if ! git -C $wt apply /verif/$s/patch.diff 2>/dev/null; then echo "SEED $name: patch does not apply"; git -C /repo worktree remove --force $wt; return; fi
+  mkdir -p $vd/evidence; cp /verif/known_findings.json $vd/
   caught=""
+  out=$(/verif/bin/lscheck -p $(echo $props | tr ' ' ',') -tier quick -repo $wt -verif $vd 2>&1)
   for p in $props; do
-    out=$(./bin/lscheck -p $p -tier quick 2>&1); rc=$?
-    if [ $rc -ne 0 ]; then
-      rules=$(echo "$out" | grep -E "^  (VIOLATED|UNDECIDED)" | awk '{print $1":"$2}' | sort -u | tr '\n' ',' )
+    if echo "$out" | grep -q "VIOLATION property=$p "; then
+      rules=$(echo "$out" | grep -E "^  (VIOLATED|UNDECIDED) $p-" | awk '{print substr($1,1,1)":"$2}' | sort -u | tr '\n' ',' )
       caught="$caught $p[$rules]"
     fi
   done
-  git -C /repo checkout -q -- .
-  git -C /repo clean -fdq
+  git -C /repo worktree remove --force $wt >/dev/null 2>&1; rm -rf $vd
   own=${name%%-*}
   if echo "$caught" | grep -q "$own\["; then verdict=CAUGHT-BY-OWN; elif [ -n "$caught" ]; then verdict=CAUGHT-BY-OTHER; else verdict=MISSED; fi
   echo "SEED $name: $verdict $caught"
-done
-# restore evidence for the unchanged tree
-for p in $props; do ./bin/lscheck -p $p -tier quick >/dev/null 2>&1; done
+}
+export -f one
+ls -d seeded/$glob | xargs -P 8 -I{} bash -c 'one {}' | sort
